@@ -19,6 +19,7 @@ RULE = (
     "interpreted against the real store (time.time in the session module replaced by a controlled integer clock) and a dict model, compared after every step; "
     "Hypothesis sequences up to 60 (quick) / 200 (thorough) steps, a Hypothesis RuleBasedStateMachine whose rules draw live sessions from a bundle (50 / 120 steps per run), plus all sequences of length<=4 (quick) / <=5 (thorough) over a 17-operation alphabet on a 3-session universe; "
     "non-trivial = sequence contains a cleanup at an exact boundary, or update/delete/get after delete/expiry, or a list mutation; distinct = distinct sequence"
+    "; round 8: the application reseeding the process-wide PRNG between operations"
     "; added in rounds 6-7 of the seeded changes: partial / null-bearing client-info records; dispatch cancelled mid-handler followed by expiry"
 )
 ASSUMPTIONS = [
@@ -125,6 +126,13 @@ def check(case: Dict[str, Any]) -> Outcome:
                         break
                     ever.append(sid)
                     model[sid] = {"client_info": ci, "protocol_version": ver, "created_at": float(clock.now), "last_activity": float(clock.now), "metadata": meta or {}}
+                elif k == "reseed":
+                    # application code (a tool made reproducible, a test fixture) seeds the process-wide PRNG
+                    import random as _random
+
+                    if "rstate" not in flags:
+                        flags["rstate"] = _random.getstate()
+                    _random.seed(op[1])
                 elif k == "get":
                     sid = ref(op[1])
                     s = store.get_session(sid)
@@ -280,10 +288,16 @@ def check(case: Dict[str, Any]) -> Outcome:
         except Exception as e_:  # noqa
             # an operation of the store / the dispatcher raised to its caller
             out.fail(f"operation-raised:{op[0] if op else '?'}", f"step {step} op {op!r}: {type(e_).__name__}: {e_}")
+        rstate = flags.pop("rstate", None)
         out.nontrivial = any(flags.values())
-        out.classes = tuple(f for f, v in flags.items() if v) + (f"len:{min(len(ops) // 10 * 10, 100)}",)
+        out.classes = tuple(f for f, v in flags.items() if v) + (f"len:{min(len(ops) // 10 * 10, 100)}",) + (("process-wide-PRNG-reseeded",) if rstate is not None else ())
+        flags["rstate"] = rstate
     finally:
         memmod.time = real_time  # type: ignore
+        if flags.get("rstate") is not None:
+            import random as _random
+
+            _random.setstate(flags["rstate"])
     return out
 
 
@@ -303,6 +317,7 @@ _op = st.one_of(
     st.tuples(st.just("cleanup"), st.tuples(st.just("idle_of"), st.integers(0, 5), st.sampled_from([-1, 0, 1])).map(list)).map(list),
     st.tuples(st.just("list_mutate"), st.sampled_from(["add", "remove", "clear"])).map(list),
     st.just(["clear"]),
+    st.tuples(st.just("reseed"), st.sampled_from([0, 7, 7, 42])).map(list),
     st.tuples(st.just("init"), st.sampled_from(VERSIONS + [None, "draft", 7]), st.integers(0, 7)).map(list),
     st.tuples(st.just("reinit"), st.sampled_from(VERSIONS + [None]), st.integers(0, 7), _ref, st.sampled_from(["same", "other"])).map(list),
     st.tuples(st.just("dispatch"), st.sampled_from(["ping", "ping", "nope/method", "boom/raise", "fine/ok", "slow/wait"]), _ref).map(list),
@@ -325,6 +340,16 @@ ALPHABET: List[List[Any]] = [
 
 
 def job_exhaustive(col: Collector, seed: int, tier: str, shard: int, nshards: int, maxlen: int) -> None:
+    if shard == 0:
+        # the process-wide PRNG seeded to the same value before each creation (through the store and through initialize)
+        mk = [["create", 1, 0], ["create", 0, 1, {"k": "v"}], ["init", "2025-06-18", 1], ["init", "2025-03-26", 0]]
+        for a in mk:
+            for b in mk:
+                for c in mk:
+                    for between in ([], [["dispatch", "ping", 0]], [["delete", 0]]):
+                        case = {"ops": [["reseed", 7], a, ["reseed", 7], b] + between + [["reseed", 7], c, ["get", 0], ["get", 1], ["get", 2]]}
+                        col.record(case, check(case))
+        col.exhaustive_parts.append("the process-wide PRNG seeded to one value before each of three creations (4 creation forms each) x 3 things in between")
     prefixes = [[["create", 1, 0], ["advance", 1], ["create", 0, 1]], [["create", 1, 0], ["update", 0], ["create", 0, 1]],
                 [["init", "2025-06-18", 1], ["dispatch", "ping", 0], ["init", "2025-03-26", 0]]]
     i = 0
